@@ -133,6 +133,44 @@ fn c06_value(ctx: &mut Ctx, v: &Value) {
             }
         }
     }
+    // positions whose predicate reaches the value through a path INTO the element
+    // (index into an array / string element, field of an object element, negative index)
+    let wrapped = json!({"els": [[v, "pad"], ["pad", v]], "objs": [{"k": v, "j": 1}], "strs": ["ab"], "one": [[v]]});
+    let path_positions: Vec<(&str, Value, fn(&Value) -> Option<bool>)> = vec![
+        ("filter-var-0", json!({"filter": [{"var": "one"}, {"var": "0"}]}), |r| r.as_array().map(|a| a.len() == 1)),
+        ("filter-var-int0", json!({"filter": [{"var": "one"}, {"var": 0}]}), |r| r.as_array().map(|a| a.len() == 1)),
+        ("filter-var--1", json!({"filter": [{"var": "one"}, {"var": "-1"}]}), |r| r.as_array().map(|a| a.len() == 1)),
+        ("filter-var-k", json!({"filter": [{"var": "objs"}, {"var": "k"}]}), |r| r.as_array().map(|a| a.len() == 1)),
+        ("all-var-0", json!({"all": [{"var": "one"}, {"var": "0"}]}), |r| r.as_bool()),
+        ("some-var-k", json!({"some": [{"var": "objs"}, {"var": "k"}]}), |r| r.as_bool()),
+        ("none-var-0", json!({"none": [{"var": "one"}, {"var": ["0"]}]}), |r| r.as_bool().map(|b| !b)),
+        ("map-if-var-0", json!({"map": [{"var": "one"}, {"if": [{"var": "0"}, "T", "F"]}]}), |r| r.get(0).and_then(|x| x.as_str()).map(|s| s == "T")),
+        ("if-var-path", json!({"if": [{"var": "els.0.0"}, "T", "F"]}), |r| r.as_str().map(|s| s == "T")),
+        ("if-var-path-neg", json!({"if": [{"var": "els.1.-1"}, "T", "F"]}), |r| r.as_str().map(|s| s == "T")),
+        ("and-var-path", json!({"and": [{"var": "objs.0.k"}, "MARK"]}), |r| Some(r.as_str() == Some("MARK"))),
+        ("or-var-path", json!({"or": [{"var": "one.0.0"}, "MARK"]}), |r| Some(r.as_str() != Some("MARK"))),
+    ];
+    for (pname, rule, read) in path_positions {
+        let (obs, _mo) = ctx.check("c06.model", &rule, &wrapped);
+        ctx.cell(&format!("pos:{}", pname));
+        if v.as_str() == Some("MARK") {
+            continue;
+        }
+        if let Outcome::Ok(r) = &obs.out {
+            if let Some(d) = read(r) {
+                ctx.mon("c06.table").observed += 1;
+                ctx.mon("c06.table").judged += 1;
+                if d != table {
+                    ctx.violation("c06.table", &format!("table:{}:{}", pname, type_name(v)), &rule, &wrapped, json!({"truthy": table}), json!({"decision": d, "result": r}), "deciding position disagrees with the JsonLogic truthiness table");
+                }
+                decisions.push((format!("{}:path:{}", pname, table), d));
+            }
+        }
+    }
+    // characters of strings are one-character strings: always truthy
+    for rule in [json!({"filter": [{"var": "strs"}, {"var": "0"}]}), json!({"all": [{"var": "strs"}, {"var": "-1"}]}), json!({"if": [{"var": "strs.0.1"}, "T", "F"]}), json!({"!!": [{"var": "strs.0.0"}]})] {
+        ctx.check("c06.model", &rule, &wrapped);
+    }
     // cross-position consistency (needs no table)
     ctx.mon("c06.consistency").observed += 1;
     ctx.mon("c06.consistency").judged += 1;
@@ -230,8 +268,8 @@ fn denoted_number_pairs(ctx: &mut Ctx, f: &mut dyn FnMut(&mut Ctx, &Value, &Valu
             let bits = x.to_bits();
             let mut cands = vec![x];
             if x != 0.0 {
-                cands.push(f64::from_bits(bits + 1));
-                cands.push(f64::from_bits(bits - 1));
+                cands.push(f64::from_bits(bits.wrapping_add(1)));
+                cands.push(f64::from_bits(bits.wrapping_sub(1)));
             }
             for c in cands {
                 if !c.is_finite() {
@@ -249,6 +287,91 @@ fn denoted_number_pairs(ctx: &mut Ctx, f: &mut dyn FnMut(&mut Ctx, &Value, &Valu
             }
             ctx.cell("denoted-number-pairs");
         }
+    }
+}
+
+/// Pairs of adjacent doubles (1 and 2 ulp apart) around every finite number of the corpus and
+/// around results of float arithmetic: a tolerance anywhere in the comparison operators shows here.
+fn neighbour_pairs(ctx: &mut Ctx, f: &mut dyn FnMut(&mut Ctx, &Value, &Value)) {
+    let mut xs: Vec<f64> = v_numbers().iter().filter_map(|v| v.as_f64()).collect();
+    xs.extend([0.1 + 0.2, 0.3, 1.0 / 3.0, 2.0 / 3.0, 1.1 * 1.1, 1.5, 100.1, 1e-5, 123456.789, 0.5, 1.0000000000000002, 4.35, 4.35 * 100.0, 1e16 + 2.0, 2.5e-308, 1e-300]);
+    let mut idx = 0u64;
+    for x in xs {
+        idx += 1;
+        if !ctx.mine(idx) || !x.is_finite() || x == 0.0 {
+            continue;
+        }
+        for s in [1.0f64, -1.0] {
+            let y = s * x;
+            let b = y.to_bits();
+            for d in [1u64, 2, 3] {
+                for z in [f64::from_bits(b.wrapping_add(d)), f64::from_bits(b.wrapping_sub(d))] {
+                    if !z.is_finite() || z.is_nan() || (z < 0.0) != (y < 0.0) {
+                        continue;
+                    }
+                    let (a, c) = match (refsem::mk_number(y), refsem::mk_number(z)) {
+                        (MOut::Val(a), MOut::Val(c)) => (a, c),
+                        _ => continue,
+                    };
+                    f(ctx, &a, &c);
+                    f(ctx, &c, &a);
+                    // and as results of arithmetic (values that only arise as intermediate results)
+                    ctx.check("neighbours.model", &json!({"===": [{"+": [a.clone(), 0]}, c.clone()]}), &Value::Null);
+                    ctx.check("neighbours.model", &json!({"<=": [c.clone(), {"*": [a.clone(), 1]}]}), &Value::Null);
+                    ctx.check("neighbours.model", &json!({"==": [{"-": [a.clone(), 0]}, {"/": [c.clone(), 1]}]}), &Value::Null);
+                    ctx.check("neighbours.model", &json!({">=": [0, a.clone(), c.clone()]}), &Value::Null);
+                }
+            }
+        }
+        ctx.cell("neighbour-doubles");
+    }
+    for (e1, e2) in [(json!({"+": [0.1, 0.2]}), json!(0.3)), (json!({"*": [1.1, 1.1]}), json!(1.21)), (json!({"/": [1, 3]}), json!(0.3333333333333333)), (json!({"-": [0.3, 0.1]}), json!(0.2)), (json!({"*": [4.35, 100]}), json!(435))] {
+        for op in ["==", "!=", "===", "!==", "<", "<=", ">", ">="] {
+            ctx.check("neighbours.model", &json!({ op: [e1, e2] }), &Value::Null);
+            ctx.check("neighbours.model", &json!({ op: [e2, e1] }), &Value::Null);
+        }
+        ctx.check("neighbours.model", &json!({"<=": [0, e1, e2]}), &Value::Null);
+        ctx.check("neighbours.model", &json!({"in": [e1, [e2]]}), &Value::Null);
+    }
+}
+
+/// Values nested deeper than JSON text can be (built in memory: Rust API callers) and values
+/// holding many containers: the string form / equality must not depend on depth or on how many
+/// arrays were already visited.
+fn deep_and_wide_values(ctx: &mut Ctx, f: &mut dyn FnMut(&mut Ctx, &Value, &Value)) {
+    let mut idx = 0u64;
+    for d in [1usize, 2, 31, 32, 33, 63, 64, 65, 100, 126, 127, 128, 129, 130, 200, 300] {
+        idx += 1;
+        if !ctx.mine(idx) {
+            continue;
+        }
+        for leaf in [json!(1), json!("x"), json!(true), json!(1.5)] {
+            let mut v = leaf.clone();
+            for _ in 0..d {
+                v = json!([v]);
+            }
+            for other in [leaf.clone(), json!(refsem::to_str(&leaf)), json!(1), json!("1"), json!(true), json!(""), json!(0), json!([leaf.clone()])] {
+                f(ctx, &v, &other);
+                f(ctx, &other, &v);
+            }
+            let two = json!(["x", v.clone()]);
+            f(ctx, &two, &json!(format!("x,{}", refsem::to_str(&leaf))));
+        }
+        ctx.cell("deep-programmatic-value");
+    }
+    for n in [3usize, 100, 127, 128, 129, 255, 256, 257, 300, 1000] {
+        idx += 1;
+        if !ctx.mine(idx) {
+            continue;
+        }
+        let table = Value::Array((0..n).map(|i| json!([i])).collect());
+        let rows = Value::Array((0..n).map(|i| json!([i, [format!("r{}", i)]])).collect());
+        let t1 = refsem::to_str(&table);
+        let t2 = refsem::to_str(&rows);
+        f(ctx, &table, &json!(t1));
+        f(ctx, &rows, &json!(t2));
+        f(ctx, &json!([table.clone(), [1]]), &json!(format!("{},1", t1)));
+        ctx.cell("many-arrays-in-one-value");
     }
 }
 
@@ -329,6 +452,8 @@ fn c07_pair(ctx: &mut Ctx, a: &Value, b: &Value) {
 }
 
 fn c07_core(ctx: &mut Ctx) {
+    neighbour_pairs(ctx, &mut |c, a, b| c07_pair(c, a, b));
+    deep_and_wide_values(ctx, &mut |c, a, b| c07_pair(c, a, b));
     pairs_corpus(ctx, &mut |c, a, b| c07_pair(c, a, b));
     denoted_number_pairs(ctx, &mut |c, a, b| c07_pair(c, a, b));
     let n = ctx.budget(6_000, 1_200_000);
@@ -401,6 +526,8 @@ fn c08_pair(ctx: &mut Ctx, a: &Value, b: &Value) {
 }
 
 fn c08_core(ctx: &mut Ctx) {
+    neighbour_pairs(ctx, &mut |c, a, b| c08_pair(c, a, b));
+    deep_and_wide_values(ctx, &mut |c, a, b| c08_pair(c, a, b));
     // number spellings of the same double, integers around 2^53 and 2^63
     let spell = ["1", "1.0", "1e0", "1E0", "10e-1", "0", "-0.0", "0.0", "0e5", "9007199254740992", "9007199254740993", "9007199254740992.0", "9223372036854775807", "9223372036854775808", "9223372036854775808.0", "9.223372036854775807e18", "18446744073709551615", "1.8446744073709552e19", "-9223372036854775808", "-9223372036854775808.0"];
     let sv: Vec<Value> = spell.iter().map(|t| parse(t)).collect();
@@ -506,6 +633,8 @@ fn c09_triple(ctx: &mut Ctx, a: &Value, b: &Value, c: &Value) {
 }
 
 fn c09_core(ctx: &mut Ctx) {
+    neighbour_pairs(ctx, &mut |c, a, b| c09_pair(c, a, b));
+    deep_and_wide_values(ctx, &mut |c, a, b| c09_pair(c, a, b));
     pairs_corpus(ctx, &mut |c, a, b| c09_pair(c, a, b));
     denoted_number_pairs(ctx, &mut |c, a, b| c09_pair(c, a, b));
     let small = v_small();
@@ -987,6 +1116,28 @@ fn c16_core(ctx: &mut Ctx) {
         }
     }
     ctx.exhaustive_parts.push(format!("all {} strings of length 0..{} over [a, é, 日, 😀, U+0301] x start x length in -10..10 + 64-bit extremes", strings.len(), maxlen));
+    // code points at the edges of the UTF-8 length classes (and NUL, DEL, NBSP): all strings of
+    // length 1..3 over them, small offsets
+    let edge = ["\u{0}", "\u{7E}", "\u{7F}", "\u{80}", "\u{7FF}", "\u{800}", "\u{D7FF}", "\u{E000}", "\u{FFFF}", "\u{10000}", "\u{10FFFF}", "\u{A0}", "a"];
+    for a in edge.iter() {
+        for b in edge.iter() {
+            idx += 1;
+            if !ctx.mine(idx) {
+                continue;
+            }
+            for c in ["", "a", "\u{7F}", "\u{10000}"] {
+                let s = format!("{}{}{}", a, b, c);
+                c16_laws(ctx, &s);
+                for start in -4..=4 {
+                    c16_substr(ctx, &s, start, None);
+                    for len in -4..=4 {
+                        c16_substr(ctx, &s, start, Some(len));
+                    }
+                }
+            }
+        }
+    }
+    ctx.exhaustive_parts.push("all strings a+b+c over 13 code points at the edges of the UTF-8 length classes x start, length in -4..4".into());
     let n = ctx.budget(300, 30_000);
     for _ in 0..n {
         let s = u_random(&mut ctx.rng, 5, 8);
@@ -1049,6 +1200,74 @@ pub fn c15_merge_pub(ctx: &mut Ctx, operands: &[Value]) {
 pub fn c16_substr_pub(ctx: &mut Ctx, s: &str, start: i64, len: Option<i64>) {
     c16_substr(ctx, s, start, len)
 }
+/// Arithmetic over operands that are themselves arithmetic (values that only arise as
+/// intermediate results; grouping matters for rounding and overflow).
+pub fn c10_nested(ctx: &mut Ctx) {
+    let hot: Vec<Value> = ["0.1", "0.2", "0.3", "1", "9007199254740992", "1e308", "1e-200", "1e300", "10", "-1", "0.5", "3", "1e16", "5e-324", "\"0.1\"", "\"2px\"", "[3]", "null", "9223372036854775807"].iter().map(|t| parse(t)).collect();
+    fn tree(r: &mut crate::rng::Rng, hot: &[Value], depth: usize) -> Value {
+        if depth == 0 || r.chance(1, 3) {
+            return r.pick(hot).clone();
+        }
+        let op = *r.pick(&ARITH);
+        let n = match op {
+            "/" | "%" => 2,
+            "-" => 1 + r.below(2),
+            _ => 1 + r.below(4),
+        };
+        let args: Vec<Value> = (0..n).map(|_| tree(r, hot, depth - 1)).collect();
+        json!({ op: args })
+    }
+    // the systematic part: same operator nested in every operand position
+    let mut idx = 0u64;
+    for op in ["+", "*", "max", "min", "-"] {
+        for a in hot.iter().take(14) {
+            for b in hot.iter().take(14) {
+                idx += 1;
+                if !ctx.mine(idx) {
+                    continue;
+                }
+                let c = &hot[(idx % 14) as usize];
+                let inner = if op == "-" { json!({ op: [b, c] }) } else { json!({ op: [b, c] }) };
+                for rule in [json!({ op: [a, inner] }), json!({ op: [inner, a] })] {
+                    ctx.check("c10.model", &rule, &Value::Null);
+                }
+                if op != "-" {
+                    ctx.check("c10.model", &json!({ op: [a, { op: [b, { op: [c, a] }] }] }), &Value::Null);
+                    ctx.check("c10.model", &json!({ op: [a, b, { op: [c, a] }, b] }), &Value::Null);
+                }
+            }
+        }
+    }
+    let n = ctx.budget(4_000, 600_000);
+    for i in 0..n {
+        let rule = tree(&mut ctx.rng, &hot, 3);
+        let (_, mo) = ctx.check("c10.model", &rule, &Value::Null);
+        ctx.cell(&format!("nested-arith:{}", arith_class(&mo)));
+        if i % 500 == 0 {
+            ctx.sample(json!({ "nested": rule }));
+        }
+        ctx.mark_nontrivial(&rule, &Value::Null);
+    }
+}
+
+pub fn c16_tables(ctx: &mut Ctx) {
+    for n in [3usize, 100, 127, 128, 129, 255, 256, 257, 300, 1000] {
+        let table = Value::Array((0..n).map(|i| json!([i])).collect());
+        let rows = Value::Array((0..n).map(|i| json!([i, [format!("r{}", i), null]])).collect());
+        c16_cat(ctx, &[table.clone()]);
+        c16_cat(ctx, &[rows.clone(), json!("|"), table.clone()]);
+        c16_cat(ctx, &[json!("a"), rows, json!("b"), table]);
+    }
+    for d in [100usize, 127, 128, 129, 200, 300] {
+        let mut v = json!("x");
+        for _ in 0..d {
+            v = json!([v, null]);
+        }
+        c16_cat(ctx, &[v.clone()]);
+        c16_cat(ctx, &[json!("<"), v, json!(">")]);
+    }
+}
+
 pub fn c16_cat_pub(ctx: &mut Ctx, operands: &[Value]) {
     c16_cat(ctx, operands)
 }
@@ -1105,6 +1324,7 @@ pub fn c09(ctx: &mut Ctx) {
 
 pub fn c10(ctx: &mut Ctx) {
     c10_core(ctx);
+    c10_nested(ctx);
     crate::props_sizes::c10(ctx);
 }
 
